@@ -529,11 +529,23 @@ Fixpoint nthN (A : Type) (l : list A) (i : N) : option A :=
 (* one XTI of BrtExternSheet -> the name calamine puts in extern_sheets *)
 Definition xti_name (sheets : list str) (xti : bytes) : outcome str :=
   do p <- read_i32 (drop 4 xti);
+  do q <- read_i32 (drop 8 xti);
   Ok (if (p =? -2)%Z then s_thiswb
       else if (p =? -1)%Z then s_invalid
       else if (0 <=? p)%Z then
-        (* quote_sheet_name(&sheets[p].0): the name as formula text writes it (Ptg.v) *)
-        match nthN sheets (Z.to_N p) with Some nm => Ptg.quote_sheet_name nm | None => s_unknown end
+        (* quote_sheet_name(&sheets[p].0): the name as formula text writes it (Ptg.v); when lastSheet q
+           names another sheet of the workbook: quote_sheet_span, First:Last (commit "fix: a 3-D reference
+           through several sheets …") *)
+        match nthN sheets (Z.to_N p) with
+        | Some nm =>
+            if negb (q =? p)%Z && (0 <=? q)%Z then
+              match nthN sheets (Z.to_N q) with
+              | Some nl => Ptg.quote_sheet_span nm nl
+              | None => Ptg.quote_sheet_name nm
+              end
+            else Ptg.quote_sheet_name nm
+        | None => s_unknown
+        end
       else s_unknown).
 
 (* firstn for a count that comes from the file (never converted to a huge unary number) *)
@@ -553,9 +565,9 @@ Variable show_f64 : N -> list N.
 
 (* parse_formula is C14's decoder model (Ptg.v, resynced to the hardened code: check_len / get /
    checked_sub, no panic site left: Ptg_total.no_panic_parse_formula_xlsb) *)
-(* the BrtName arm on the record body *)
-Definition brt_name (d : bytes) (ext : list str) (names : list (str * str))
-  : outcome (str * str) :=
+(* the BrtName arm on the record body: the name and its rgce (the formulas are decoded once every
+   name is known: commit "fix: an xlsb defined name that uses a name stored after it lost that name") *)
+Definition brt_name (d : bytes) : outcome (str * bytes) :=
   let n := len d in
   if n <? 9 then Err E_UNREC else
   do w <- wide_str_m (drop 9 d);
@@ -563,13 +575,17 @@ Definition brt_name (d : bytes) (ext : list str) (names : list (str * str))
   if n <? 13 + sl then Err E_UNREC else
   do rl <- read_u32 (drop (9 + sl) d);
   if n <? 13 + sl + rl then Err E_UNREC else
-  let rgce := take rl (drop (13 + sl) d) in
-  do f <- Ptg.xlsb_parse_formula show_f64 (Ptg.Build_xlsb_env ext (map fst names) None) rgce;
-  Ok (name, f).
+  Ok (name, take rl (drop (13 + sl) d)).
+
+(* at the record that follows the names: every formula against the names of ALL BrtName records
+   (collect::<Result<_, _>>: the first error in record order) *)
+Definition decode_names (ext : list str) (names : list (str * bytes)) : outcome (list (str * str)) :=
+  map_o (fun nr => do f <- Ptg.xlsb_parse_formula show_f64 (Ptg.Build_xlsb_env ext (map fst names) None) (snd nr);
+                   Ok (fst nr, f)) names.
 
 (* second loop: BrtExternSheet, BrtName, up to one of the records that follow the names *)
 Fixpoint xlsb_loop2 (fuel : nat) (s : bytes) (sheets ext : list str)
-         (names : list (str * str)) : outcome (list (str * str)) :=
+         (names : list (str * bytes)) : outcome (list (str * str)) :=
   match fuel with
   | O => OutOfFuel
   | S f =>
@@ -585,9 +601,9 @@ Fixpoint xlsb_loop2 (fuel : nat) (s : bytes) (sheets ext : list str)
     else if typ =? 39 then                               (* 0x0027 BrtName *)
       do y <- read_body s1;
       let '(d, s2) := y in
-      do nf <- brt_name d ext names;
+      do nf <- brt_name d;
       xlsb_loop2 f s2 sheets ext (names ++ [nf])
-    else if is_end_type typ then Ok names
+    else if is_end_type typ then decode_names ext names
     else
       do y <- read_body s1;
       let '(_, s2) := y in
@@ -685,7 +701,13 @@ Definition xls_lbl (d : bytes) : outcome (str * (option N * str) * bytes) :=
   (* fBuiltin (r.data[0] & 0x20): a one-character id of a built-in name becomes _xlnm.<Name>
      (FormulaEnv.builtin_fix mirrors the code; commit "fix: xls built-in defined names …") *)
   let name := FormulaEnv.builtin_fix (nth 0 d 0) (read_ustr_nocch (drop 14 d) cch) in
-  let rgce := drop (len d - cce) d in
+  (* the rgce follows the name (name_len = 1 + nbytes, what read_unicode_string_no_cch returns); what
+     follows the rgce is its extra data rgcb (commit "fix: the formula of an xls defined name was taken
+     from the end of its record …"; before: &r.data[r.data.len() - cce..]) *)
+  let hb := match drop 14 d with b :: _ => N.odd b | [] => false end in
+  let name_len := 1 + (if hb then 2 * cch else cch) in
+  if len d <? 14 + name_len + cce then Err E_LEN_ else
+  let rgce := take cce (drop (14 + name_len) d) in
   do f <- xls_defined_name rgce;
   Ok (name, f, rgce).              (* defined_names.push((name, formula, rgce.to_vec())) *)
 
@@ -750,7 +772,9 @@ Fixpoint xls_globals (recs : list (outcome rec_item)) (st : xls_state) : outcome
     else if t =? 23 then                                             (* ExternSheet *)
       if len d <? 2 then Err E_LEN_ else
       do cxti <- read_u16 d;
-      do xs <- map_o xls_xti (firstN cxti (chunks_exact 6 (drop 2 d)));
+      (* the XTI array goes on in the CONTINUE records of the record (commit "fix: the part of an xls
+         ExternSheet record continued in CONTINUE records was ignored …") *)
+      do xs <- map_o xls_xti (firstN cxti (chunks_exact 6 (drop 2 d ++ concat (conts_of c))));
       xls_globals rest (mkXlsState (xg_sheets st) (xg_names st) (xg_xtis st ++ xs) (xg_1904 st))
     else if t =? 252 then                                            (* SST *)
       do _ <- parse_sst (d, conts_of c);
@@ -759,19 +783,11 @@ Fixpoint xls_globals (recs : list (outcome rec_item)) (st : xls_state) : outcome
     else xls_globals rest st
   end.
 
-(* xtis.get(i).and_then(|xti| fmla_sheet_names.get(xti.itab_first as usize)).map_or("#REF", ..)
-   with fmla_sheet_names = sheet_names.map(quote_sheet_name) *)
+(* xti_sheets(xtis.get(i), &fmla_sheet_names) — Ptg.sheet_name_xls: the sheet itab_first, quoted; the
+   span First:Last when itab_last names another sheet; fmla_sheet_names = the BoundSheet8 names *)
 Definition xls_sheet_of (st : xls_state) (i : N) : str :=
-  match nthN (xg_xtis st) i with
-  | Some (_, first, _) =>
-    if first <? 32768 then
-      match nthN (xg_sheets st) first with
-      | Some pm => Ptg.quote_sheet_name (m_name (snd pm))
-      | None => s_ref
-      end
-    else s_ref
-  | None => s_ref
-  end.
+  Ptg.sheet_name_xls
+    (Ptg.Build_xls_env (map (fun pm => m_name (snd pm)) (xg_sheets st)) [] (xg_xtis st) None) i.
 
 (* after the loop (commit "xls defined names other than a single 3-D reference …"): the whole
    formula goes through the cell-formula decoder, with the names of every Lbl record at hand;
@@ -779,7 +795,7 @@ Definition xls_sheet_of (st : xls_state) (i : N) : str :=
      let mut cpf = (rgce.len() as u16).to_le_bytes().to_vec(); cpf.extend_from_slice(&rgce);
      if let Ok(full) = parse_formula(&cpf, &fmla_sheet_names, &lbl_names, &xtis, &encoding, None) { return (name, full) } *)
 Definition xls_formula_env (st : xls_state) : Ptg.xls_env :=
-  Ptg.Build_xls_env (map (fun pm => Ptg.quote_sheet_name (m_name (snd pm))) (xg_sheets st))
+  Ptg.Build_xls_env (map (fun pm => m_name (snd pm)) (xg_sheets st))
                     (map (fun nf => fst (fst nf)) (xg_names st)) (xg_xtis st) None.
 
 Definition xls_first_token_text (st : xls_state) (f : option N * str) : str :=
@@ -1176,6 +1192,10 @@ Record xlsb_choice : Type := mkBc {
   bc_omit_prop : bool;                 (* no BrtWbProp when the flag is false *)
   bc_flags_hi : N;                     (* the other bits of the first flag byte, / 2 *)
   bc_prop_rest : bytes;                (* rest of the BrtWbProp body *)
+  bc_links : list (Ptg.suplink * bytes);
+                                       (* the supporting links of the EXTERNALS block in record order, any number of
+                                          any kind — BrtSupBookSrc, BrtSupSelf, BrtSupSame, BrtSupAddin — each with the
+                                          body of its record; XTI.iSupBook counts them from 0 *)
   bc_xtis : list (N * N * N);          (* BrtExternSheet: (iSupBook, iSheetFirst, iSheetLast) *)
   bc_name_hdr : list (N * N * N);      (* per name: flags, chKey, itab *)
   bc_end : N;                          (* the record that follows the names *)
@@ -1193,6 +1213,11 @@ Definition name_body (n : str * Ptg.expr) (h : N * N * N) : bytes :=
   le32 (fst (fst h)) ++ [snd (fst h)] ++ le32 (snd h) ++ Utf16.enc_wide (fst n)
   ++ le32 (len rgce) ++ rgce ++ le32 0 ++ le32 4294967295.
 
+(* the records of the supporting links (MS-XLSB 2.1.7.53 EXTERNALS): BrtSupBookSrc 355, BrtSupSelf 357,
+   BrtSupSame 358, BrtSupAddin 667 *)
+Definition link_recs (l : list (Ptg.suplink * bytes)) : list (N * bytes) :=
+  map (fun lp => (FormulaEnv.sup_type_xlsb (fst lp), snd lp)) l.
+
 Definition xlsb_workbook_bin (c : xlsb_choice) (wb : workbook Ptg.expr) : bytes :=
   let j1 := brecs (bc_junk1 c) in
   let j2 := brecs (bc_junk2 c) in
@@ -1205,7 +1230,7 @@ Definition xlsb_workbook_bin (c : xlsb_choice) (wb : workbook Ptg.expr) : bytes 
   ++ j1 ++ brec 144 [] ++ j2
   ++ (match bc_xtis c with
       | [] => []
-      | xs => brec 353 [] ++ brec 357 []
+      | xs => brec 353 [] ++ brecs (link_recs (bc_links c))
               ++ brec 362 (le32 (len xs) ++ flat_map xti_bytes xs) ++ brec 354 []
       end)
   ++ flat_map (fun nh => j2 ++ brec 39 (name_body (fst nh) (snd nh)))
@@ -1238,35 +1263,38 @@ Definition bs_legal (rels : amap (str * str)) (s : meta) (ch : bs_choice) : bool
 (* the sheet names the XTIs resolve to (legal XTIs point at sheets of this workbook), as formula
    text writes them in front of '!' (Ptg.sheet_text: quoted when the grammar demands it) *)
 Definition spec_ext (wb_sheet_names : list str) (xtis : list (N * N * N)) : list str :=
-  map (fun x => match nthN wb_sheet_names (snd (fst x)) with Some n => Ptg.sheet_text n | None => [] end) xtis.
+  map (fun x => match nthN wb_sheet_names (snd (fst x)), nthN wb_sheet_names (snd x) with
+                | Some n, Some l => if snd (fst x) =? snd x then Ptg.sheet_text n else Ptg.span_text n l
+                | Some n, None => Ptg.sheet_text n
+                | None, _ => []
+                end) xtis.
 
 Section XlsbSpec.
 Variable show_f64 : N -> list N.
 
-(* expected defined names: the i-th formula rendered with the XTI table and the names before it *)
-Fixpoint spec_names_xlsb (ext : list str) (before : list str) (l : list (str * Ptg.expr))
-  : list (str * str) :=
-  match l with
-  | [] => []
-  | (n, e) :: r =>
-    (n, Ptg.render_xlsb show_f64 (Ptg.Build_xlsb_env ext before None) e)
-    :: spec_names_xlsb ext (before ++ [n]) r
-  end.
+(* expected defined names: every formula rendered with the XTI table and the names of the WHOLE
+   table [all] (PtgName is an index into it; Excel stores the names sorted, so a name may well use one
+   stored after it) *)
+Definition spec_names_in (ext all : list str) (l : list (str * Ptg.expr)) : list (str * str) :=
+  map (fun ne => (fst ne, Ptg.render_xlsb show_f64 (Ptg.Build_xlsb_env ext all None) (snd ne))) l.
+Definition spec_names_xlsb (ext : list str) (l : list (str * Ptg.expr)) : list (str * str) :=
+  spec_names_in ext (map fst l) l.
 
-Fixpoint names_wf_xlsb (ext : list str) (before : list str) (l : list (str * Ptg.expr)) : bool :=
-  match l with
-  | [] => true
-  | (n, e) :: r =>
-    Ptg.wf_xlsb (Ptg.Build_xlsb_env ext before None) e && name_ok n
-    && (Utf16.utf16_len n <? 65536)
-    && (len (Ptg.encode_xlsb e) <? 268000000)
-    && names_wf_xlsb ext (before ++ [n]) r
-  end.
+Definition name_wf_in (ext all : list str) (ne : str * Ptg.expr) : bool :=
+  Ptg.wf_xlsb (Ptg.Build_xlsb_env ext all None) (snd ne) && name_ok (fst ne)
+  && (Utf16.utf16_len (fst ne) <? 65536)
+  && (len (Ptg.encode_xlsb (snd ne)) <? 268000000).
+Definition names_wf_xlsb (ext : list str) (l : list (str * Ptg.expr)) : bool :=
+  forallb (name_wf_in ext (map fst l)) l.
 End XlsbSpec.
 
-Definition xti_legal (nsheets : N) (x : N * N * N) : bool :=
+(* an XTI of this workbook: its supporting link — the iSupBook-th record of the EXTERNALS block — is BrtSupSelf
+   or BrtSupSame (Ptg.xti_local), and then firstSheet and lastSheet name sheets of this workbook (a single
+   sheet or a span of sheets).  XTIs through a link to another workbook are not in this domain: what they mean is
+   said by Ptg.sheet_through_link, and the reader gets them wrong (property C14, known finding K_EXTERN_BOOK) *)
+Definition xti_legal (links : list Ptg.suplink) (nsheets : N) (x : N * N * N) : bool :=
   (fst (fst x) <=? 2147483647) && (snd (fst x) <? nsheets) && (snd (fst x) <=? 2147483647)
-  && (snd x <=? 2147483647).
+  && (snd x <? nsheets) && (snd x <=? 2147483647) && Ptg.xti_local links x.
 
 Definition hdr_legal (h : N * N * N) : bool :=
   (fst (fst h) <=? 4294967295) && (snd (fst h) <? 256) && (snd h <=? 4294967295).
@@ -1276,10 +1304,11 @@ Definition xlsb_legal (c : xlsb_choice) (wb : workbook Ptg.expr) : bool :=
   && forallb2 (bs_legal (rels_raw (bc_rels c))) (wb_sheets wb) (bc_sheets c)
   && (bc_flags_hi c <? 128)
   && (len (bc_prop_rest c) <? 268435455)
-  && forallb (xti_legal (len (wb_sheets wb))) (bc_xtis c)
+  && forallb (xti_legal (map fst (bc_links c)) (len (wb_sheets wb))) (bc_xtis c)
+  && forallb (fun lp => len (snd lp) <? 268435456) (bc_links c)
   && (len (bc_xtis c) <? 1000000)
   && forallb2 (fun _ h => hdr_legal h) (wb_names wb) (bc_name_hdr c)
-  && names_wf_xlsb (spec_ext (map m_name (wb_sheets wb)) (bc_xtis c)) [] (wb_names wb)
+  && names_wf_xlsb (spec_ext (map m_name (wb_sheets wb)) (bc_xtis c)) (wb_names wb)
   && is_end_type (bc_end c).
 
 (* ===================================================================================== *)
@@ -1291,59 +1320,25 @@ Definition xls_kind_code (k : kind) : N :=
   match k with WorkSheet => 0 | MacroSheet => 1 | ChartSheet => 2 | Vba => 6 | DialogSheet => 0 end.
 Definition xls_kind_ok (k : kind) : bool := match k with DialogSheet => false | _ => true end.
 
-(* value of a defined name in an xls file: one 3-D token *)
-Inductive xref : Type :=
-| XRef (k : Ptg.cls) (ixti : N) (a : Ptg.cref)
-| XArea (k : Ptg.cls) (ixti : N) (a b : Ptg.cref)
-| XRefErr (k : Ptg.cls) (ixti : N)
-| XAreaErr (k : Ptg.cls) (ixti : N).
-
-Definition xref_ixti (x : xref) : N :=
-  match x with XRef _ i _ | XArea _ i _ _ | XRefErr _ i | XAreaErr _ i => i end.
-
-Definition xref_rgce (x : xref) : bytes :=
-  match x with
-  | XRef k i a => [Ptg.cls_ptg 58 90 122 k] ++ le16 i ++ le16 (Ptg.cr_row a) ++ le16 (Ptg.cfield a)
-  | XArea k i a b => [Ptg.cls_ptg 59 91 123 k] ++ le16 i ++ le16 (Ptg.cr_row a)
-                     ++ le16 (Ptg.cr_row b) ++ le16 (Ptg.cfield a) ++ le16 (Ptg.cfield b)
-  | XRefErr k i => [Ptg.cls_ptg 60 92 124 k] ++ le16 i ++ [0; 0; 0; 0]
-  | XAreaErr k i => [Ptg.cls_ptg 61 93 125 k] ++ le16 i ++ [0; 0; 0; 0; 0; 0; 0; 0]
-  end.
-
-Definition xref_text (x : xref) : str :=
-  match x with
-  | XRef _ _ a => Ptg.render_cref a
-  | XArea _ _ a b => Ptg.render_cref a ++ [COLON] ++ Ptg.render_cref b
-  | XRefErr _ _ | XAreaErr _ _ => s_ref_bang
-  end.
-
-Definition cref_ok (a : Ptg.cref) : bool := (Ptg.cr_row a <? 65536) && (Ptg.cr_col a <? 16384).
-Definition cref_abs (a : Ptg.cref) : bool := negb (Ptg.cr_row_rel a) && negb (Ptg.cr_col_rel a).
-Definition xref_ok (x : xref) : bool :=
-  match x with
-  | XRef _ _ a => cref_ok a
-  | XArea _ _ a b => cref_ok a && cref_ok b
-  | _ => true
-  end.
-Definition xref_abs (x : xref) : bool :=
-  match x with
-  | XRef _ _ a => cref_abs a
-  | XArea _ _ a b => cref_abs a && cref_abs b
-  | _ => true
-  end.
-
+(* value of a defined name in an xls file: any expression of C14's grammar (Ptg.expr) — a 3-D reference
+   or area, a union of areas behind a PtgMemFunc (Print_Titles with rows and columns, a multi-area
+   Print_Area), constants, other names, #REF! forms.  (Until audit 2 the value was [xref]: one 3-D token.) *)
 Record ls_choice : Type := mkLs {
   ls_pos : N;                (* lbPlyPos *)
   ls_wide : bool;            (* 16-bit storage of the name *)
   ls_hi : N                  (* the six unused upper bits of the hsState byte (MS-XLS 2.4.28) *)
 }.
 Record ln_choice : Type := mkLn {
-  ln_wide : bool; ln_flags : N; ln_key : N; ln_itab : N
+  ln_wide : bool; ln_flags : N; ln_key : N; ln_itab : N;
+  ln_rgcb : bytes             (* NameParsedFormula = rgce ++ rgcb: the extra data behind the tokens (array
+                                 constants, the areas of a PtgMemArea); any bytes *)
 }.
 Record xls_choice : Type := mkLc {
   lc_sheets : list ls_choice;
   lc_names : list ln_choice;
-  lc_xtis : list (N * N * N);          (* ExternSheet: (iSupBook, itabFirst, itabLast) *)
+  lc_xtis : list (N * N * N);          (* ExternSheet: (iSupBook, itabFirst, itabLast) — any number *)
+  lc_xcuts : list nat;                 (* sizes of the pieces of the XTI array in the ExternSheet record and in
+                                          all but the last of its CONTINUE records (MS-XLS 2.4.105) *)
   lc_junk0 : list (N * bytes);         (* ignorable globals records, by position *)
   lc_junk1 : list (N * bytes);
   lc_junk2 : list (N * bytes);
@@ -1376,15 +1371,24 @@ Definition lbl_units (n : str) (ch : ln_choice) : list N :=
   then match builtin_id n with Some id => [id] | None => units_of n end
   else units_of n.
 
-Definition lbl_body (n : str * xref) (ch : ln_choice) : bytes :=
-  let us := lbl_units (fst n) ch in
-  let rgce := xref_rgce (snd n) in
-  le16 (ln_flags ch) ++ [ln_key ch; len us] ++ le16 (len rgce) ++ [0; 0] ++ le16 (ln_itab ch)
-  ++ [0; 0; 0; 0] ++ b2n (ln_wide ch) :: seg_bytes (ln_wide ch) us ++ rgce.
-
 Definition xti6 (x : N * N * N) : bytes := le16 (fst (fst x)) ++ le16 (snd (fst x)) ++ le16 (snd x).
 
-Definition xls_stream (c : xls_choice) (wb : workbook xref) : bytes :=
+Definition lbl_body (n : str * Ptg.expr) (ch : ln_choice) : bytes :=
+  let us := lbl_units (fst n) ch in
+  let rgce := Ptg.encode_xls (snd n) in
+  le16 (ln_flags ch) ++ [ln_key ch; len us] ++ le16 (len rgce) ++ [0; 0] ++ le16 (ln_itab ch)
+  ++ [0; 0; 0; 0] ++ b2n (ln_wide ch) :: seg_bytes (ln_wide ch) us ++ rgce ++ ln_rgcb ch.
+
+(* the XTI array cut into the piece that stays in the ExternSheet record and those of its CONTINUE records *)
+Fixpoint xpieces (cuts : list nat) (b : bytes) : bytes * list bytes :=
+  match cuts with
+  | [] => (b, [])
+  | c :: t => let '(p, ps) := xpieces t (skipn c b) in (firstn c b, p :: ps)
+  end.
+Definition extern_rec (xs : list (N * N * N)) (cuts : list nat) : bytes * list bytes :=
+  let '(p0, ps) := xpieces cuts (flat_map xti6 xs) in (le16 (len xs) ++ p0, ps).
+
+Definition xls_stream (c : xls_choice) (wb : workbook Ptg.expr) : bytes :=
   frame 2057 bof_globals
   ++ frames (lc_junk0 c)
   ++ (if lc_omit_1904 c && negb (wb_1904 wb) then [] else frame 34 (le16 (b2n (wb_1904 wb))))
@@ -1393,7 +1397,7 @@ Definition xls_stream (c : xls_choice) (wb : workbook xref) : bytes :=
   ++ frames (lc_junk2 c)
   ++ (match lc_xtis c with
       | [] => []
-      | xs => frame 430 [1; 0; 1; 4] ++ frame 23 (le16 (len xs) ++ flat_map xti6 xs)
+      | xs => frame 430 [1; 0; 1; 4] ++ frame_rec 23 (extern_rec xs (lc_xcuts c))
       end)
   ++ flat_map (fun nc => frame 24 (lbl_body (fst nc) (snd nc))) (combine (wb_names wb) (lc_names c))
   ++ frames (lc_junk3 c)
@@ -1422,38 +1426,46 @@ Definition ls_legal (s : meta) (ch : ls_choice) : bool :=
   xls_kind_ok (m_kind s) && name_ok (m_name s) && (len (units_of (m_name s)) <=? 255)
   && wide_ok (ls_wide ch) (m_name s) && (ls_pos ch <=? 4294967295) && (ls_hi ch <? 64).
 
-(* the sheet an XTI names *)
-Definition spec_xti_sheet (sheets : list meta) (xtis : list (N * N * N)) (i : N) : str :=
-  match nthN xtis i with
-  | Some x => match nthN sheets (snd (fst x)) with Some m => Ptg.sheet_text (m_name m) | None => [] end
-  | None => []
-  end.
+(* the environment the names of the workbook are written against: the sheets, every name, the XTI table *)
+Definition spec_env_xls (c : xls_choice) (wb : workbook Ptg.expr) : Ptg.xls_env :=
+  Ptg.Build_xls_env (map m_name (wb_sheets wb)) (map fst (wb_names wb)) (lc_xtis c) None.
 
-Definition ln_legal (nxti : N) (n : str * xref) (ch : ln_choice) : bool :=
+Definition ln_legal (env : Ptg.xls_env) (n : str * Ptg.expr) (ch : ln_choice) : bool :=
   name_ok (fst n) && (len (units_of (fst n)) <=? 255) && wide_ok (ln_wide ch) (fst n)
-  && xref_ok (snd n) && (xref_ixti (snd n) <? nxti)
+  && Ptg.wf_xls env (snd n) && (len (Ptg.encode_xls (snd n)) <? 65536)
   && (ln_flags ch <? 65536) && (ln_key ch <? 256) && (ln_itab ch <? 65536)
   (* fBuiltin is set exactly on records that store a built-in id *)
-  && (negb (N.testbit (ln_flags ch) 5) || is_some (builtin_id (fst n))).
+  && (negb (N.testbit (ln_flags ch) 5) || is_some (builtin_id (fst n)))
+  (* the record is not continued *)
+  && (len (lbl_body n ch) <=? 65535).
 
+(* itabFirst is a sheet of this workbook; itabLast any value (another sheet: a span; itself; or nothing
+   the workbook has: the reference then reads as its first sheet) *)
 Definition xls_xti_legal (nsheets : N) (x : N * N * N) : bool :=
-  (fst (fst x) <? 65536) && (snd (fst x) <? nsheets) && (snd (fst x) <? 32768) && (snd x <? 65536).
+  (* iSupBook = 0: the one SupBook record this encoder writes (cch = 0x0401, this workbook) — the XTI's supporting
+     link is this workbook (Ptg.xti_local [SupSelf]); files with several SupBook records in any order, and XTIs
+     through a link to another workbook: property C14 (FormulaEnv.GSup, known finding K_EXTERN_BOOK) *)
+  (fst (fst x) =? 0) && (snd (fst x) <? nsheets) && (snd (fst x) <? 32768) && (snd x <? 65536).
 
-Definition xls_legal (c : xls_choice) (wb : workbook xref) : bool :=
+Definition xls_legal (c : xls_choice) (wb : workbook Ptg.expr) : bool :=
   forallb xjunk_ok (lc_junk0 c) && forallb xjunk_ok (lc_junk1 c)
   && forallb xjunk_ok (lc_junk2 c) && forallb xjunk_ok (lc_junk3 c)
   && forallb2 ls_legal (wb_sheets wb) (lc_sheets c)
-  && forallb2 (ln_legal (len (lc_xtis c))) (wb_names wb) (lc_names c)
+  && forallb2 (ln_legal (spec_env_xls c wb)) (wb_names wb) (lc_names c)
   && forallb (xls_xti_legal (len (wb_sheets wb))) (lc_xtis c)
-  && (len (lc_xtis c) <? 1370)
+  (* cXTI is a 16-bit count; every piece of the array fits a record *)
+  && (len (lc_xtis c) <=? 65535)
+  && (len (fst (extern_rec (lc_xtis c) (lc_xcuts c))) <=? 65535)
+  && forallb (fun p => len p <=? 65535) (snd (extern_rec (lc_xtis c) (lc_xcuts c)))
   && negb ((4 <? len (lc_tail c)) && (u16_at (lc_tail c) 0 =? 60))
   && forallb (fun ch => ls_pos ch <=? len (xls_stream c wb)) (lc_sheets c).
 
-(* no known class is left for xls (relative defined names: repaired) *)
+(* no known class is left for xls *)
 
-Definition spec_names_xls (c : xls_choice) (wb : workbook xref) : list (str * str) :=
-  map (fun n => (fst n, spec_xti_sheet (wb_sheets wb) (lc_xtis c) (xref_ixti (snd n))
-                        ++ [BANG] ++ xref_text (snd n))) (wb_names wb).
+(* the defined names of the workbook: every Lbl record in order, its value the A1 rendering of its
+   expression — 3-D references through the XTI table to the sheet (or span of sheets) it names *)
+Definition spec_names_xls (show_f64 : N -> list N) (c : xls_choice) (wb : workbook Ptg.expr) : list (str * str) :=
+  map (fun n => (fst n, Ptg.render_xls show_f64 (spec_env_xls c wb) (snd n))) (wb_names wb).
 
 (* ===================================================================================== *)
 (** * E — ods *)
